@@ -25,6 +25,7 @@ const (
 	Key              // {name}
 	Call             // {fn args...}
 	Seq              // concatenation of children at the same depth (top-level text)
+	rawArg           // {fn "children"}: one quoted argument holding the children as its own template (children must not need escaping)
 )
 
 // Node is one node of a template tree.
@@ -123,6 +124,12 @@ func (n *Node) print(sb *strings.Builder, depth int) {
 		for _, a := range n.Args {
 			a.print(sb, depth)
 		}
+	case rawArg:
+		sb.WriteString("{" + n.S + " \"")
+		for _, a := range n.Args {
+			a.print(sb, 0)
+		}
+		sb.WriteString("\"}")
 	}
 }
 
